@@ -71,18 +71,20 @@ class ColumnBackend(ArraySchemaBackend):
                 # make sure the schema component mutations are reverted after
                 # validation
                 _orig_name = schema.name
-                validated_check_obj = super(ColumnBackend, self).validate(
-                    check_obj,
-                    schema.set_name(column_name),
-                    head=head,
-                    tail=tail,
-                    sample=sample,
-                    random_state=random_state,
-                    lazy=lazy,
-                    inplace=inplace,
-                )
-                # revert the schema component mutations
-                schema.name = _orig_name
+                try:
+                    validated_check_obj = super(ColumnBackend, self).validate(
+                        check_obj,
+                        schema.set_name(column_name),
+                        head=head,
+                        tail=tail,
+                        sample=sample,
+                        random_state=random_state,
+                        lazy=lazy,
+                        inplace=inplace,
+                    )
+                finally:
+                    # revert the schema component mutations
+                    schema.name = _orig_name
 
                 if return_check_obj:
                     return validated_check_obj
